@@ -63,10 +63,43 @@ def setup(repo):
                 return orig(tensors)
             return outer
         cls.register_method("outer", wrap())
+    # ---- tag EVERY probed dispatched function with the backend class that actually ran it
+    BE_PROBES = ["shape", "ndim", "copy", "sum", "abs", "sqrt", "max", "min", "transpose", "sign", "prod", "mean", "argmax", "conj", "exp"]
+    TA_PROBES = ["outer", "inner", "kronecker", "khatri_rao", "mode_dot"]
+    be_ran = threading.local()
+    numpy_inst = tl.backend.load_backend("numpy")
+    origs = {n: getattr(numpy_inst, n) for n in BE_PROBES}
+    from tensorly.backend.core import Backend as _B
+    for bname, cls in _B._available_backends.items():
+        if bname not in ("numpy", "jax", "cupy"):
+            continue
+        for n in BE_PROBES:
+            def tagged(orig=origs[n], bname=bname):
+                def f(*a, **k):
+                    be_ran.name = bname
+                    return orig(*a, **k)
+                return f
+            setattr(cls, n, staticmethod(tagged()))
+    for n, cls in TenalgBackend._available_tenalg_backends.items():
+        for fn in TA_PROBES:
+            if fn == "outer":
+                continue          # already tagged above
+            o = cls.__dict__[fn].__func__ if isinstance(cls.__dict__.get(fn), staticmethod) else getattr(cls, fn)
+
+            def wrap2(o=o, n=n):
+                def g(*a, **k):
+                    ran.name = n
+                    return o(*a, **k)
+                return g
+            cls.register_method(fn, wrap2())
     tl.set_backend("numpy")
     tenalg.set_backend("core")
     vec = np.ones(2)
+    mat = np.ones((2, 2))
     MGR = {"be": tl.backend, "ta": tenalg}
+    counter = {"n": 0}
+    TA_ARGS = {"outer": lambda: ([vec, vec],), "inner": lambda: (vec, vec), "kronecker": lambda: ([mat, mat],),
+               "khatri_rao": lambda: ([mat, mat],), "mode_dot": lambda: (mat, mat, 0)}
 
     def observe():
         o = {"be": {}, "ta": {}}
@@ -78,6 +111,13 @@ def setup(repo):
             o["be"]["adisp"] = str(tl.backend.backend_name)
             r2 = tl.arcsinh(0.0)           # the wrapper re-exported at top level
             o["be"]["topdisp"] = r2 if isinstance(r2, str) else "numpy"
+            # three more dispatched functions, rotating through the probe list (manager attribute and top-level re-export)
+            counter["n"] += 1
+            for j in range(3):
+                name = BE_PROBES[(counter["n"] * 3 + j) % len(BE_PROBES)]
+                be_ran.name = "norun"
+                (getattr(tl.backend, name) if j % 2 == 0 else getattr(tl, name))(vec if name != "transpose" else mat)
+                o["be"]["p%d" % j] = be_ran.name
         except Exception as ex:
             o["be"]["get"] = "error:" + type(ex).__name__
         try:
@@ -86,6 +126,10 @@ def setup(repo):
             ran.name = "norun"
             tenalg.outer([vec, vec])
             o["ta"]["fdisp"] = ran.name
+            name = TA_PROBES[counter["n"] % len(TA_PROBES)]
+            ran.name = "norun"
+            getattr(tenalg, name)(*TA_ARGS[name]())
+            o["ta"]["p0"] = ran.name
         except Exception as ex:
             o["ta"]["get"] = "error:" + type(ex).__name__
         return o
